@@ -28,7 +28,7 @@ func init() {
 			"undecided|subroute|http|wrapper|errmatcher|aftermatch). oracles: (a) never-early, one-sided: observed end - observed start >= timeout when the abort reason is the timeout; " +
 			"(b) bounded: ended by timeout+max(1s,timeout), evaluated only when the scheduler canary stayed below slack/4; (c) bytes pulled from the client <= 8192+2048; " +
 			"(d) fails closed: no handler/fallback event, connection closed; (e) after a match a sink still receives bytes sent 2x timeout later. " +
-			"non-trivial = the run reached its deciding observation; distinct = hash(all run parameters)",
+			"non-trivial = the run reached its deciding observation; distinct = hash(all run parameters). variant aftermatch-nodata: every route of a subroute is decided as not matching without any read; the handler behind the subroute still receives data sent 2x timeout later and no deadline is left armed",
 		Assumptions: []string{
 			"UDP end-of-association is observed through the scripted matcher's evaluation history (a restart of the accumulated prefix), which bounds the abort time from above only",
 			"upper bounds are statistical (canary-guarded); lower bounds are exact up to the observer clock",
@@ -101,6 +101,16 @@ func routesFor(r *Run) (routes string, outerTimeout string) {
 				"handle": []any{map[string]any{"handler": "verif_sink", "name": "H2"}}},
 			inner}}
 		return drive.J([]any{map[string]any{"handle": []any{sub, map[string]any{"handler": "verif_sink", "name": "H", "bufsize": 64}}}}), "30s"
+	case "aftermatch-nodata":
+		// every route of the subroute is decided as not matching without looking at the stream (no prefetch at all): the
+		// connection falls through the subroute at once and the handler behind it must not be limited by the subroute's deadline
+		f := false
+		sub := map[string]any{"handler": "subroute", "matching_timeout": T, "routes": []any{
+			map[string]any{"match": []any{map[string]any{"verif_m2": map[string]any{"id": "never", "need": 0, "const": f}}},
+				"handle": []any{map[string]any{"handler": "verif_sink", "name": "H2"}}},
+			map[string]any{"match": []any{map[string]any{"verif_m3": map[string]any{"id": "never2", "need": 0, "const": f}}},
+				"handle": []any{map[string]any{"handler": "verif_sink", "name": "H3"}}}}}
+		return drive.J([]any{map[string]any{"handle": []any{sub, map[string]any{"handler": "verif_sink", "name": "H", "bufsize": 64}}}}), "30s"
 	case "after-nonterminal-late":
 		// like after-nonterminal, but the non-terminal route needs three bytes: with a trickling client it matches only
 		// after several prefetch rounds in which the undecided route behind it has already been seen as undecided
@@ -171,7 +181,7 @@ func run(c *fw.Ctx) {
 				runs = append(runs, &Run{Transport: "udp", Client: "silent", TimeoutMs: to, Phase: ph, Variant: "after-nonterminal", Index: idx})
 				// extra variants, on tcp
 				for _, v := range []string{"subroute", "http", "wrapper", "errmatcher", "aftermatch", "after-nonterminal", "after-nonterminal-late", "or-sets", "http2",
-					"aftermatch-empty", "aftermatch-empty-nomatcher", "aftermatch-take"} {
+					"aftermatch-empty", "aftermatch-empty-nomatcher", "aftermatch-take", "aftermatch-nodata"} {
 					idx++
 					cl := "trickle"
 					if v == "wrapper" && int(ph*100)%2 == 1 {
